@@ -211,6 +211,9 @@ type WritersCheck struct {
 	// Updaters: the mutating method calls on the cell loaded from the field are inside the listed
 	// functions (named pkgpath.func, any package)
 	Updaters bool
+	// Callers: Field names a function of the module (pkgpath.func); every static call of it in the module
+	// is inside one of the listed functions (named pkgpath.func, any package)
+	Callers bool
 }
 
 type TableCheck struct {
@@ -416,6 +419,25 @@ func (cs *Contracts) LoadContractFile(path, pkg string) error {
 			}
 			if wc.Field == "" || len(wc.Funcs) == 0 {
 				return fail("updaters needs Type.field and at least one function")
+			}
+			cs.Writers = append(cs.Writers, wc)
+			return nil
+		case "callers":
+			// callers props=C15 pkg.func f1 f2 ...: only the listed functions (of any package of the module)
+			// call the named function
+			fs := strings.Fields(rest)
+			wc := &WritersCheck{Pkg: pkg, Callers: true}
+			for _, a := range fs {
+				if strings.HasPrefix(a, "props=") {
+					wc.Props = strings.Split(a[6:], ",")
+				} else if wc.Field == "" {
+					wc.Field = a
+				} else {
+					wc.Funcs = append(wc.Funcs, a)
+				}
+			}
+			if wc.Field == "" || len(wc.Funcs) == 0 {
+				return fail("callers needs a function and at least one caller")
 			}
 			cs.Writers = append(cs.Writers, wc)
 			return nil
